@@ -405,6 +405,9 @@ theorem C03_inv_step (w : World) (op : Op) (hi : Inv w) : Inv (step .now w op).1
       · intro m i e; simp [Cfg.now] at e
       · intro s hs'; exact sw s (by rw [hs]; simp [hs'])
 
+example : Inv (step .now (run .now .init [.assignGlobal 1 10, .enter, .lookup 1, .closure]).1 (.assign 1 20 false)).1 :=
+  C03_inv_step _ _ (by rw [← C03_invB_iff]; decide)
+
 /-- The invariant holds in every reachable world. -/
 theorem C03_inv_reachable (ops : List Op) : Inv (run .now .init ops).1 := by
   suffices ∀ (w : World), Inv w → Inv (run .now w ops).1 from this _ C03_inv_init
@@ -447,6 +450,9 @@ theorem C03_lookup_reachable (ops : List Op) (n : Name) :
     (getVar (run .now .init ops).1.heap (run .now .init ops).1.cur n).1
       = lookupSpec (run .now .init ops).1.heap (run .now .init ops).1.cur.vars n :=
   (getVar_spec _ _ n (C03_inv_reachable ops).cur_cache).1
+
+example : (getVar (run .now .init [.assignGlobal 1 10, .enter, .lookup 1, .assign 1 20 false]).1.heap
+    (run .now .init [.assignGlobal 1 10, .enter, .lookup 1, .assign 1 20 false]).1.cur 1).1 = .val 20 := by decide
 
 /-- The specification never panics: panics are impossible in the cached machine too. -/
 theorem C03_no_panic (ops : List Op) : Out.panic ∉ (run .now .init ops).2 := by
@@ -715,6 +721,8 @@ theorem grassForLoop_down (stop : Int) : ∀ (n : Nat) (i : Int), stop ≤ i →
       congr 1
       · simp
       · apply List.map_congr_left; intro k _; simp; omega
+
+example : grassFor 3 0 true 10 = [3, 2, 1, 0] ∧ grassFor 1 4 false 4 = [1, 2, 3] := by decide
 
 /-- The loop as written in grass visits exactly the specified range (given enough iterations). -/
 theorem C03_for_grass_loop (lo hi : Int) (inclusive : Bool) (fuel : Nat)
